@@ -122,6 +122,22 @@ def one(ctx, mods, np, s1, s2, kw, nd):
     if not kw.get("penalty"):
         run("dtw.best_path(c-matrix)", lambda: dtw.best_path(MC), want=float(dC))
     cs = dtw.DTWSettings.for_dtw(s1, s2, **kwn).c_kwargs()
+    if not kw.get("penalty") and rng.random() < 0.4:
+        # a caller-owned matrix that is reused across pairs (old finite content, also outside the new band), filled by
+        # the Cython entry point and traced with the Python back-tracking
+        try:
+            old_ = rng.choice([0.0, 0.125, 1.0, 50.0])
+            out_ = np.full((r + 1, c + 1), old_)
+            a1_, a2_ = np.ascontiguousarray(s1, dtype=float), np.ascontiguousarray(s2, dtype=float)
+            with monitors.quiet():
+                if rng.random() < 0.5:      # an earlier, unconstrained pair of the same shape
+                    (dtw_cc.warping_paths_ndim if nd else dtw_cc.warping_paths)(out_, a1_, a2_, psi_neg=True)
+                dR_ = (dtw_cc.warping_paths_ndim if nd else dtw_cc.warping_paths)(out_, a1_, a2_, psi_neg=True, **cs)
+            ctx.count("c05_reused_output_matrix_paths")
+            run("dtw.best_path(c-matrix, reused output array)", lambda: dtw.best_path(out_), want=float(dR_))
+        except Exception as e:
+            ctx.violation("exception", fn="dtw_cc.warping_paths(reused output matrix)+best_path", s1=L1, s2=L2,
+                          settings=dict(dtwmon.settings_key(kwn)), error=repr(e)[:300])
     if kw.get("inner_dist", "squared euclidean") == "squared euclidean" or not kw.get("penalty"):
         run("dtw_cc.best_path_compact", lambda: dtw_cc.best_path_compact(MK, r, c, **cs),
             want=float(inn.result(dK)) if dK != inf else inf)
